@@ -27,6 +27,7 @@ import (
 // repository; library functions are assumed not to write through their arguments except
 // for the listed mutators.
 type FrameObligation struct {
+	Kind   string // "" (shared-state frame) or "errprop"
 	Name   string
 	Func   string
 	OK     bool
